@@ -40,7 +40,7 @@ struct Plan {
 	int placement = 0;       // 0 ascending, 1 descending
 	int gapmax = 0;          // random gap in [0,gapmax], multiple of 16
 	int fill = 0;            // 0: 0x00, 1: 0xff, 2: 0xa5, 3: seeded stream
-	int free_policy = 0;     // 0 poison + never reuse, 1 LIFO reuse (refilled), 2 keep contents except the first 16 bytes (use after free "works")
+	int free_policy = 0;     // 0 poison + never reuse, 1 LIFO reuse (refilled), 2 keep contents except the first 16 bytes (use after free "works"), 3 LIFO reuse with the stale contents (what glibc's malloc hands out: the previous owner's bytes, first 16 clobbered)
 	int realloc_policy = 0;  // 0 always move + poison old, 1 in place when possible
 	int zero_policy = 0;     // 0 unique pointer, 1 NULL
 	uint64_t alloc_seed = 0;
